@@ -8,6 +8,7 @@ F = {
     "F5": "F5-template-strength-dishonest",
     "F16": "F16-generic-div-f-integer",
     "N7": "C02-N7-concat-operands-unparenthesised",
+    "N10": "C02-N10-date-format-quote-escaped-twice",
     # repaired in /repo (status "fixed"): only used by the directed replays, which must NOT reproduce them
     "F17": "F17-timestamp-literal-text-compare",
     "N1": "C02-N1-regex-op-undocumented",
